@@ -21,6 +21,9 @@ pub enum ProcCase {
         label: String,
         /// files inside ws/ (name, stored bytes)
         files: Vec<(String, Vec<u8>)>,
+        /// names among `files` that are symbolic links to content kept outside ws/
+        #[serde(default)]
+        symlinked: Vec<String>,
         /// static oddities of the directory (dangling symlink, empty directory, …)
         #[serde(default)]
         extras: Vec<crate::world::Extra>,
@@ -104,7 +107,7 @@ fn viol(prop: &str, what: &str, detail: String) -> Violation {
 }
 
 fn run_cli_case(prop: &str, bin: &Path, dir: &Path, case: &ProcCase) -> Option<Violation> {
-    let ProcCase::Cli { label, files, extras, unprivileged, cmd, args, predicted_ok, predicted_codes, .. } = case else { return None };
+    let ProcCase::Cli { label, files, symlinked, extras, unprivileged, cmd, args, predicted_ok, predicted_codes, .. } = case else { return None };
     let ws = dir.join("ws");
     std::fs::create_dir_all(&ws).ok()?;
     for (name, bytes) in files {
@@ -112,7 +115,16 @@ fn run_cli_case(prop: &str, bin: &Path, dir: &Path, case: &ProcCase) -> Option<V
         if let Some(parent) = path.parent() {
             std::fs::create_dir_all(parent).ok()?;
         }
-        std::fs::write(path, bytes).ok()?;
+        if symlinked.contains(name) {
+            let target = dir.join("store").join(name);
+            if let Some(parent) = target.parent() {
+                std::fs::create_dir_all(parent).ok()?;
+            }
+            std::fs::write(&target, bytes).ok()?;
+            std::os::unix::fs::symlink(&target, &path).ok()?;
+        } else {
+            std::fs::write(path, bytes).ok()?;
+        }
     }
     for e in extras {
         use crate::world::Extra;
